@@ -984,3 +984,7 @@ pub struct TCoefficient {
     /// Sorenson Spark version 1 bitstreams, `LEVEL` is either 7 or 11 bits.
     pub level: i16,
 }
+
+#[cfg(any(kani, ruffle_rs_h263_rs_verif))]
+#[path = "/verif/hooks/h263/types.rs"]
+mod verif_hook;
